@@ -28,8 +28,8 @@ def shards(tier):
             for auto in (True, False):
                 out.append(dict(part="c", dev=dev, op="transfer", sgeo=sg, dgeo=dg, k=1, steps=4 if tier == "quick" else 6, auto_split=auto,
                                 partition_by="auto", washes=[1], ncand=2))
-            if tier == "thorough":
-                out.append(dict(part="c", dev=dev, op="transfer", sgeo=sg, dgeo=dg, k=2, steps=3, auto_split=True, partition_by="auto", washes=[1], ncand=2))
+            # two triples (repeated source / destination wells included): each is split on its own
+            out.append(dict(part="c", dev=dev, op="transfer", sgeo=sg, dgeo=dg, k=2, steps=2 if tier == "quick" else 3, auto_split=True, partition_by="auto", washes=[1], ncand=2))
         out.append(dict(part="d", dev=dev, mds=list(range(1, 9 if tier == "quick" else 13))))
     return out
 
@@ -143,6 +143,23 @@ def judge(ctx, p, outcome):
             ex = s[5] if s[5] is not None else s[4]
             ctx.prove(ctx.lt(0, ex) if s[5] is not None else ctx.le(0, ex), "C06: emitted step is not positive")
             ctx.prove(ctx.le(ex if s[5] is not None else ex - HALF_CENT, m), "C06: emitted step exceeds the worklist max_volume")
+        if p["k"] > 1:
+            # per (source position, destination position): the pairs emitted for the triples of this pair are exactly their ceil(v/m) steps
+            gs, gd = W.geo["S"], W.geo[W.dst.name]
+            by = {}
+            for s_, d_, x in W.pairs:
+                by.setdefault((gs.encode(s_, W.dev), gd.encode(d_, W.dev)), []).append(x)
+            cnt = {}
+            for a_, d_ in zip(A, D):
+                cnt[(a_[3], d_[3])] = cnt.get((a_[3], d_[3]), 0) + 1
+            for key, xs in by.items():
+                n = cnt.get(key, 0)
+                tot = 0
+                for x in xs:
+                    tot = tot + x
+                # n pairs carry volumes <= m each and add up to the requested total: n >= total/m; and n <= sum of per-triple ceilings < total/m + len(xs)
+                ctx.prove(ctx.le(tot, n * m), "C06: fewer pairs than needed for the requested volumes of one well pair")
+                ctx.prove(ctx.any_of([ctx.eq(tot, 0) if n == 0 else False, ctx.lt((n - len(xs)) * m, tot)]) if n else ctx.eq(tot, 0), "C06: more pairs than ceil(v/max_volume) per triple")
         if p["k"] == 1:
             n = len(A)
             if n > 1:
